@@ -52,6 +52,8 @@ var owners = map[string][]string{
 	"bystander":   {"C04"},
 	"count":       {"C15", "C04"},
 	"locks":       {"C18", "C16"},
+	"hang":        {"C18", "C09"},
+	"hang.lock":   {"C18", "C09", "C16"},
 	"junk":        {"C19", "C05"},
 	"challenge":   {"C03"},
 }
@@ -84,6 +86,25 @@ func OwnedBy(m Mismatch, a map[string]any, prop string) bool {
 	}
 	if strings.HasPrefix(m.Kind, "framer") && (prop == "C10" || (prop == "C09" && m.Kind == "framer.spin")) {
 		return true
+	}
+	if strings.HasPrefix(m.Kind, "tcp.") {
+		if prop == "C16" {
+			return true
+		}
+		if prop == "C02" && (m.Kind == "tcp.inbound+" || m.Kind == "tcp.attempt~") {
+			return true
+		}
+		if prop == "C15" && (m.Kind == "tcp.close-" || m.Kind == "tcp.conn+") {
+			return true
+		}
+		if (prop == "C03" || prop == "C04") && (m.Kind == "tcp.bind" || m.Kind == "tcp.bound") {
+			return true
+		}
+		if prop == "C05" && m.Kind == "tcp.pipe~" {
+			return true
+		}
+
+		return false
 	}
 	if m.Kind == "codec" && prop == "C11" {
 		return true
